@@ -134,6 +134,46 @@ theorem C19_accepts_below_surface (a b : Node) (hd : isDetector a = true ∨ isD
   cases a <;> cases b <;> simp [isDetector] at hd ⊢ <;>
     (rw [key _ (by simp [flatten, flattenL, C19_flatten_append])]; simp)
 
+/-! ### a refused in-place addition (repair F23) -/
+
+/-- a refused `+=` leaves the detector exactly as it was … -/
+theorem C19_refused_iadd_rolls_back (self : List Node) (other : Node)
+    (h : (iaddExec self other).2 = false) : (iaddExec self other).1 = self := by
+  unfold iaddExec at h ⊢
+  by_cases hv : valid (.comb (appendOther self other)) = true <;> simp_all
+
+/-- … an accepted one contains no antenna above the surface … -/
+theorem C19_accepted_iadd_valid (self : List Node) (other : Node)
+    (h : (iaddExec self other).2 = true) : valid (.comb (iaddExec self other).1) = true := by
+  unfold iaddExec at h ⊢
+  by_cases hv : valid (.comb (appendOther self other)) = true <;> simp_all
+
+/-- … hence NO sequence of in-place additions, accepted or refused, ever leaves an antenna above the
+surface inside a detector that had none (invariant by induction over the history of `+=` calls). -/
+theorem C19_iadd_history_keeps_valid (others : List Node) (self : List Node)
+    (h0 : valid (.comb self) = true) :
+    valid (.comb (others.foldl (fun s o => (iaddExec s o).1) self)) = true := by
+  induction others generalizing self with
+  | nil => simpa using h0
+  | cons o r ih =>
+    simp only [List.foldl_cons]
+    apply ih
+    by_cases h : (iaddExec self o).2 = true
+    · exact C19_accepted_iadd_valid self o h
+    · have h' : (iaddExec self o).2 = false := by simpa using h
+      rw [C19_refused_iadd_rolls_back self o h']; exact h0
+
+/-- the statement order before the repair (append, test, raise) did NOT have this invariant: witness -/
+theorem C19_prerepair_iadd_keeps_rejected_antenna :
+    let bad : Ant := ⟨9, false, false, true⟩
+    let r := iaddExecPre [.ant ⟨1, false, false, false⟩] (.ant bad)
+    r.2 = false ∧ bad ∈ flattenL r.1 := by
+  decide
+
+example : (iaddExec [.ant ⟨1, false, false, false⟩] (.ant ⟨9, false, false, true⟩)).2 = false ∧
+    flattenL (iaddExec [.ant ⟨1, false, false, false⟩] (.ant ⟨9, false, false, true⟩)).1
+      = [⟨1, false, false, false⟩] := by decide
+
 /-! ### triggers -/
 
 -- `allDefault n`: every detector in the tree keeps the default any-antenna trigger (it accepts `**kwargs`);
